@@ -28,10 +28,13 @@ RULE = (
     "of the file returned by open('wb') (own user-space buffer: half of each of the first two writes reaches the disk at "
     "once, the rest at close) and pickle.load are yield points; a crash at a yield point makes the pending and all later "
     "file-system effects of that thread no-ops (buffered data lost, finally-unlink does not happen). N=2 with at most one "
-    "crash is enumerated EXHAUSTIVELY by depth-first re-execution (every interleaving x every crash point) for four "
-    "scenarios: cold cache/same text, cold/two texts, warm/same text, warm entry of text A with a run on A and one on B; "
-    "the choice-prefix frontier at depth 6 is striped over the shards. N=3 (two texts, up to 2 crashes, cold/warm/stray-"
-    "partial-tmp start) is sampled with Hypothesis. Thorough adds rounds of 4-8 real aas-core-codegen --cache_model "
+    "crash is enumerated EXHAUSTIVELY by depth-first re-execution (every interleaving x every crash point) for five "
+    "scenarios: cold cache/same text, cold/two texts, warm/same text, warm entry of text A with a run on A and one on B, "
+    "and 'late writer' (a third run completes atomically right after thread 0 saw no entry, so that thread 0 replaces an "
+    "existing entry while thread 1 may be reading it); "
+    "the choice-prefix frontier at depth 6 is striped over the shards. N=2..4 (two texts, up to 2 crashes, cold/warm/stray-"
+    "partial-tmp/late-writer start) is sampled with Hypothesis, half with uniform picks, half with priority schedules with "
+    "<=4 change points. Thorough adds rounds of 4-8 real aas-core-codegen --cache_model "
     "processes on one TMPDIR with SIGKILL at drawn delays (oracle = state afterwards). The front end is memoised by "
     "model text inside the harness (parse/translate run once per text; pickling, all file operations and unpickling "
     "are the real code). Oracle per history: no run raises except the injected crash; every pickle.load reads exactly "
@@ -111,6 +114,9 @@ SCENARIOS = {
     "cold-diff": (["A", "B"], "cold"),
     "warm-same": (["A", "A"], "warm-A"),
     "warm-mixed": (["A", "B"], "warm-A"),
+    # a further run X on text A completes (atomically) right after thread 0 found no entry: thread 0 is a late
+    # writer that replaces an existing entry while thread 1 may be reading it
+    "late-writer": (["A", "A"], "late-A"),
 }
 
 
@@ -243,7 +249,8 @@ def _exc_bucket(e: BaseException) -> str:
     return runner.exc_bucket(e)
 
 
-def run_history(env: Env, texts: List[str], init: str, choices: List[int], max_crashes: int
+def run_history(env: Env, texts: List[str], init: str, choices: List[int], max_crashes: int,
+                chooser: Optional[Callable[[List[Tuple[str, int]]], int]] = None
                 ) -> Tuple[fssched.Scheduler, List[Tuple[str, str]], Dict[str, Any]]:
     """Execute one history; returns (scheduler, failures, info)."""
     env.counter += 1
@@ -265,7 +272,16 @@ def run_history(env: Env, texts: List[str], init: str, choices: List[int], max_c
     tempfile.tempdir = str(hist)
     env.hooks.set_root(str(hist))
     env.uuid_shim.n = 0
-    sched = fssched.Scheduler(fssched.prefix_chooser(choices), max_crashes=max_crashes)
+    sched = fssched.Scheduler(chooser or fssched.prefix_chooser(choices), max_crashes=max_crashes)
+    if init == "late-A":
+        initial_payloads[env.entry["A"]] = "A"
+
+        def on_park(tid: int, steps_done: int, label: str) -> None:
+            if tid == 0 and steps_done == 1:
+                cache_dir.mkdir(exist_ok=True)
+                (cache_dir / f"model-{env.hash['A']}.pickle").write_bytes(env.entry["A"])
+
+        sched.on_park = on_park
     env.sched = sched
     env.hooks.sched = sched
     fails = []  # type: List[Tuple[str, str]]
@@ -490,16 +506,52 @@ def real_refs(env: Env, base: pathlib.Path, target: str) -> Dict[Tuple[str, str]
 # ---------------------------------------------------------------------------
 
 
+def pct_chooser(prio: List[int], changes: List[int], crash_steps: List[int]) -> Callable[[List[Tuple[str, int]]], int]:
+    """
+    Priority schedule with few change points (probabilistic concurrency testing): run the parked thread of
+    highest priority; at the drawn steps the running thread drops below all others. Orderings that need d
+    specific hand-overs are hit with probability ~1/(n*k^(d-1)) instead of ~n^-k for uniform picks.
+    """
+    rank = {tid: p for tid, p in enumerate(prio)}
+    state = {"step": 0, "low": -1}
+
+    def choose(options: List[Tuple[str, int]]) -> int:
+        step = state["step"]
+        state["step"] += 1
+        if step in crash_steps:
+            for i, (action, _) in enumerate(options):
+                if action == "crash":
+                    return i
+        runs = [(rank.get(tid, 0), i, tid) for i, (action, tid) in enumerate(options) if action == "run"]
+        best = max(runs)
+        if step in changes:
+            rank[best[2]] = state["low"]
+            state["low"] -= 1
+            best = max((rank.get(tid, 0), i, tid) for _, i, tid in runs)
+        return best[1]
+
+    return choose
+
+
 @st.composite
 def sampled(draw: Any) -> Dict[str, Any]:
     n = draw(st.sampled_from([3, 3, 3, 2, 4]))
-    return {
+    case = {
         "mode": "sampled",
         "texts": draw(st.lists(st.sampled_from(["A", "A", "B"]), min_size=n, max_size=n)),
-        "init": draw(st.sampled_from(["cold", "cold", "warm-A", "warm-B", "stray-tmp"])),
+        "init": draw(st.sampled_from(["cold", "cold", "warm-A", "warm-B", "stray-tmp", "late-A"])),
         "max_crashes": draw(st.integers(0, 2)),
-        "choices": draw(st.lists(st.integers(0, 4), min_size=0, max_size=45)),
     }
+    if draw(st.booleans()):
+        case["choices"] = draw(st.lists(st.integers(0, 4), min_size=0, max_size=45))
+    else:
+        case["pct"] = {
+            "prio": draw(st.permutations(list(range(n)))),
+            "changes": draw(st.lists(st.integers(0, 26), max_size=4, unique=True)),
+            "crash_steps": draw(st.lists(st.integers(1, 26), max_size=case["max_crashes"], unique=True)),
+        }
+        case["choices"] = []
+    return case
 
 
 @st.composite
@@ -563,9 +615,12 @@ def shard(ctx: runner.Ctx) -> None:
         n = ctx.n(16_000, 400_000)
 
         def one(case: Dict[str, Any]) -> None:
-            sched, fails, info = run_history(env, case["texts"], case["init"], case["choices"], case["max_crashes"])
+            pct = case.pop("pct", None)
+            chooser = pct_chooser(pct["prio"], pct["changes"], pct["crash_steps"]) if pct else None
+            sched, fails, info = run_history(env, case["texts"], case["init"], case["choices"], case["max_crashes"], chooser)
             _record(ctx, case, sched, fails, info, [f"sampled:N={len(case['texts'])}", f"sampled:init={case['init']}",
-                                                    f"sampled:crashes={info['crashed']}"])
+                                                    f"sampled:crashes={info['crashed']}",
+                                                    "sampled:priority-schedule" if pct else "sampled:uniform-picks"])
 
         runner.hyp_run(sampled(), one, n, ctx.seed)
 
@@ -614,7 +669,7 @@ def replay(case: Any) -> List[Tuple[str, str]]:
         init = case.get("init")
         mc = case.get("max_crashes")
         if not (isinstance(choices, list) and all(isinstance(c, int) and not isinstance(c, bool) for c in choices)
-                and init in ("cold", "warm-A", "warm-B", "stray-tmp") and isinstance(mc, int) and 0 <= mc <= 3):
+                and init in ("cold", "warm-A", "warm-B", "stray-tmp", "late-A") and isinstance(mc, int) and 0 <= mc <= 3):
             return []
         _, fails, _ = run_history(env, texts, init, [abs(c) for c in choices][:200], mc)
         return fails
